@@ -3,6 +3,7 @@ package props
 import (
 	"fmt"
 	"sort"
+	"strings"
 
 	"verif/harness/drv"
 	"verif/harness/gen"
@@ -18,12 +19,12 @@ var verbNum = map[string]int{"": 0, "GET": 1, "POST": 2, "PUT": 3, "DELETE": 4, 
 // methodDigest is what the Lean route model reads of one RPC (computed from the IR only).
 func methodDigest(req *ir.Request, f *ir.File, s *ir.Service, m *ir.Method) map[string]any {
 	d := map[string]any{"svc": s.Name, "meth": m.Name, "meth_go": ir.GoCamelCase(m.Name), "go_pkg": f.GoPkgName(),
-		"base": s.BasePath, "has_config": m.Config != nil, "path": "", "verb_num": 0, "query_names": []string{}}
+		"base": s.BasePath, "has_config": m.Config != nil, "path": "", "verb_num": 0, "query_names": []string{}, "query_required": []string{}}
 	if m.Config != nil {
 		d["path"] = m.Config.Path
 		d["verb_num"] = verbNum[m.Config.Method]
 	}
-	qs := []string{}
+	qs, qr := []string{}, []string{}
 	if in, _ := req.FindMessage(m.Input); in != nil {
 		for _, fl := range in.Fields {
 			if fl.Ann.Query != nil {
@@ -32,10 +33,14 @@ func methodDigest(req *ir.Request, f *ir.File, s *ir.Service, m *ir.Method) map[
 					n = fl.Name
 				}
 				qs = append(qs, n)
+				if fl.Ann.Query.Required {
+					qr = append(qr, n)
+				}
 			}
 		}
 	}
 	d["query_names"] = qs
+	d["query_required"] = qr
 	return d
 }
 
@@ -53,6 +58,9 @@ func routeFromJSON(v any) routes.Route {
 	for _, x := range asList(m["query_names"]) {
 		r.QueryNames = append(r.QueryNames, fmt.Sprint(x))
 	}
+	for _, x := range asList(m["query_required"]) {
+		r.QueryRequired = append(r.QueryRequired, fmt.Sprint(x))
+	}
 	return r.Canon()
 }
 
@@ -64,7 +72,8 @@ func asList(v any) []any {
 func placementEq(a, b routes.Route) bool {
 	x, y := a, b
 	x.Verb, y.Verb, x.Template, y.Template = "", "", "", ""
-	return x.Equal(y)
+	x.QueryRequired, y.QueryRequired = nil, nil // only the Go server and the OpenAPI document carry the flag
+	return x.Canon().Equal(y.Canon())
 }
 
 // C03: all five generators agree on each RPC's verb, path and parameter placement.
@@ -278,6 +287,16 @@ func C03(c *Ctx) error {
 						res.Violation("placement", key+": generators disagree on parameter placement", replay)
 					} else {
 						res.Divergence("placement:query_field_on_body_verb", key+": generators disagree on parameter placement", implAgrees, replay)
+					}
+				}
+				// the published contract marks as required exactly the query parameters the Go server requires
+				if missing != "openapi" && strings.Join(real["openapi"].QueryRequired, "\x00") != strings.Join(ref.QueryRequired, "\x00") {
+					res.Violation("required", fmt.Sprintf("%s: the OpenAPI document marks %v as required query parameters, the Go server requires %v", key, real["openapi"].QueryRequired, ref.QueryRequired), replay)
+				}
+				if len(ref.QueryRequired) > 0 {
+					res.Count("query:some_required")
+					if len(ref.QueryRequired) < len(ref.QueryNames) {
+						res.Count("query:mixed_required_optional")
 					}
 				}
 				// exactly one operation per RPC
